@@ -214,6 +214,8 @@ def generate(prop, rng, tier):
             set_counter += 1
             name = "set%d" % set_counter
             rr = rng.random()
+            if set_counter == 1 and rr > 0.6:
+                name = None                       # default name (stored as '')
             if rr < 0.05:
                 name = 17                         # invalid type -> must raise
             ops.append({"op": "add_set", "kind": kind, "geom": g, "mesh": mk, "ids": idl, "name": name})
